@@ -236,6 +236,14 @@ def run(prog, rep, tier='quick', config='default'):
     # `entry(sec).or_insert(..)` writes only when absent by construction
     entry_inserts = [c for c in ps.calls if c.short in ('or_insert', 'or_insert_with', 'or_insert_with_key', 'or_default') and
                      re.search(r'Entry<.*std::string::String, \(time::Date, util::decimal::ConstrainedDecimal', ps.ty.get(c.arg_local(0), ''))]
+    # `match map.entry(sec) { Entry::Vacant(v) => v.insert(..), .. }`: a vacant entry is absent by construction
+    entry_inserts += [c for c in ps.calls if c.short == 'insert' and
+                      re.search(r'VacantEntry<.*std::string::String, \(time::Date, util::decimal::ConstrainedDecimal', ps.ty.get(c.arg_local(0), ''))]
+    overwrites = [c for c in ps.calls if c.short in ('insert', 'get_mut', 'into_mut', 'insert_entry') and
+                  re.search(r'OccupiedEntry<.*std::string::String, \(time::Date, util::decimal::ConstrainedDecimal', ps.ty.get(c.arg_local(0), ''))]
+    for c in overwrites:
+        rep.violation('R17h', 'opening-cost-recorded-once#occupied', where=c.where(), fn=ps.name,
+                      detail='the entry holding a security\'s cost base before its first transaction is changed through an occupied entry (%s)' % c.short)
     for n, c in enumerate(entry_inserts, 1):
         rep.ok('R17h', 'opening-cost-recorded-once#e%d' % n, where=c.where(), fn=ps.name, detail='recorded through the entry API (%s): only when absent' % c.short)
     if not opens and not entry_inserts:
@@ -300,6 +308,44 @@ def run(prog, rep, tier='quick', config='default'):
                     rep.violation('R17d', 'replace-only-for-strictly-larger-total', where=c.where(), fn=f.name,
                                   detail='the remembered day is replaced when old.total %s new.total (must be strictly smaller): ties would move to a later day' % {'le': '<=', 'gt': '>', 'ge': '>='}[opn])
                     good = None
+        if good is False and insy:
+            # the same decision through a closure / bool variable (`get(&year).map_or(true, |best| new.total > best.total)`):
+            # enumerate the paths to the insert over the atoms "a day is remembered" and "old.total <op> new.total"
+            YMAP = r'HashMap<i32, time::Date>'
+
+            def atom(fn, c):
+                a0 = fn.ty.get(c.arg_local(0), '') if c.args else ''
+                if c.short == 'get' and re.search(YMAP, a0):
+                    return ('remembered', 'option')
+                if c.short == 'contains_key' and re.search(YMAP, a0):
+                    return ('remembered', 'bool')
+                m = re.search(r'PartialOrd::(lt|gt|le|ge)$', c.decl)
+                if m and len(c.args) == 2:
+                    o = [mir.provenance(fn, a, follow_all_call_args=True) for a in c.args]
+                    if not all(any(of == DAY and fl == 'total' for of, fl in x.fields) for x in o):
+                        return None
+                    old = [i for i in (0, 1) if any(x.short == 'get' and re.search(YMAP, fn.ty.get(x.arg_local(0), '')) for x in o[i].calls) or
+                           (fn.kind == 'Closure' and (o[i].params - {1}))]
+                    if len(old) != 1:
+                        return None
+                    op = m.group(1) if old[0] == 0 else {'lt': 'gt', 'gt': 'lt', 'le': 'ge', 'ge': 'le'}[m.group(1)]
+                    return ('old_%s_new' % op, 'bool')
+                return None
+            verdicts = []
+            for c in insy:
+                paths = mir.symbolic_paths(f, 0, c.bb, atom, prog=prog)
+                if paths is None or not paths:
+                    verdicts.append(None)
+                    continue
+                def strictly(p):
+                    return p.get('remembered') is False or p.get('old_lt_new') is True or p.get('old_ge_new') is False
+                verdicts.append(all(strictly(p) for p in paths) and any(p.get('remembered') is not False for p in paths))
+            if verdicts and all(v is True for v in verdicts):
+                good = True
+            elif any(v is False for v in verdicts):
+                rep.violation('R17d', 'replace-only-for-strictly-larger-total', where=insy[0].where(), fn=f.name,
+                              detail='the remembered day can be replaced on a path where its total is not strictly smaller than the new day\'s total: ties would move to a later day')
+                good = None
         if good:
             rep.ok('R17d', 'replace-only-for-strictly-larger-total', fn=f.name, detail='the remembered day is replaced only when its total is strictly smaller than the new day\'s total')
         elif good is False:
